@@ -130,6 +130,9 @@ func nativeReplay(pkg *ssa.Package, cases []replayCase, timeout time.Duration) (
 	for _, f := range files {
 		repl[filepath.Join(repoDir, "zz_verif_"+filepath.Base(f))] = f
 	}
+	corpusFile := filepath.Join(tmp, "zz_verif_corpus.go")
+	os.WriteFile(corpusFile, corpusSource(), 0o644)
+	repl[filepath.Join(repoDir, "zz_verif_corpus.go")] = corpusFile
 	testFile := filepath.Join(tmp, "zz_verif_replay_test.go")
 	os.WriteFile(testFile, []byte(genReplayTest(pkg)), 0o644)
 	repl[filepath.Join(repoDir, "zz_verif_replay_test.go")] = testFile
